@@ -12,6 +12,12 @@ ENGINES = [
      'kind_free_text': 'preemption-bounded controlled scheduler over compiler-inserted load/store hooks with conflict (race) monitor'},
 ]
 TEXT = {
+    'C03': {
+        'level': 'Bounded-exhaustive: every string of <=5 (quick) / <=6 (thorough, 34 M) units over {& < > \" \' ; a m p l t g q u o s x NUL} through StringUtils::EscapeHTMLSpecialChars from exact-size buffers in three widths; every proper prefix and one-unit corruption of the five entities x tails x prefixes (entity look-alikes at every distance from the end); every string of <=3/4 units and all entity products through 8 printing positions of the renderer ({var:}, {raw:}, loop key, super-variable phrase, svar sub-tags, inline-if true/false sub-tags, echoed source of an unresolved tag). Oracle: no raw < > \" \', & only as the start of one of the five entities, decode(out)==decode(in), escaping is idempotent, {raw:} verbatim, stream prefix intact; a second build with QENTEM_AUTO_ESCAPE_HTML=0 requires {var:} == {raw:}.',
+        'design_ref': 'DESIGN.md §5 C03',
+        'note': 'Strings over the stated alphabet only (all other units are copied unchanged by construction of the escaper\'s switch).',
+        'technique': 'bounded-exhaustive input enumeration on the implementation with algebraic oracle',
+    },
     'C01': {
         'level': 'Bounded-exhaustive exploration of the real parser and renderer under ASan/UBSan with the exact-fit growth hook (so slack capacity is a redzone) and in a fast guard-page build: every string of <=3 (quick) / <=4 (thorough) tokens over 49 template tokens (every tag opener/closer, attribute piece, quote, operator, path piece, fillers of 250/300/65540 units that wrap the 8/16-bit tag fields) plus every code-unit truncation of a token; every well-formed template with <=3/4 nodes over 12 leaf tags and 8 containers (nesting <=4) with every code-unit cut and every deviation of distance 1 (delete, insert one of 45 tokens anywhere, swap, replace a closer); each rendered from an unterminated exact-size buffer against 8 value trees (object/array roots, deep nesting, removed members, zero divisors, INT64_MIN, pointer member) as char and char16_t. Oracle: no sanitizer report, no signal (SIGFPE), no hang, earlier stream content intact, tag-free text renders to itself.',
         'design_ref': 'DESIGN.md §5 C01',
